@@ -106,9 +106,14 @@ def index_terms(fmls, extra=()):
 
 
 def _has_var(e):
-    stack = [e]
+    # terms are DAGs with heavy sharing (nested stage applications): visit every node once
+    stack, seen = [e], set()
     while stack:
         x = stack.pop()
+        i = x.get_id()
+        if i in seen:
+            continue
+        seen.add(i)
         if z3.is_var(x):
             return True
         if z3.is_app(x):
